@@ -51,6 +51,16 @@ func (r *runner) hits(k kase) ([]filter.Hit, error) {
 		return nil, err
 	}
 	ki.Build()
+	// a caller that lists positions one-based and adds a terminator writes on what the index gave it;
+	// the filter must still see the index as built
+	for p := 0; p < 8 && p+k.K <= len(k.Target); p++ {
+		if ps, err := ki.KmerPositionsString(k.Target[p : p+k.K]); err == nil {
+			for i := range ps {
+				ps[i]++
+			}
+			_ = append(ps, len(k.Target))
+		}
+	}
 	q := t
 	if !k.Self {
 		q = linear.NewSeq("q", alphabet.BytesToLetters([]byte(k.Query)), alphabet.DNA)
